@@ -77,7 +77,11 @@ def contracts():
         post=[('u128_hi.value', 'r == (u as int) / B64()'), ('u128_hi.limb', 'r < B64()')],
         entry=BV)
     d['u128_lo'] = C(
-        post=[('u128_lo.value', 'r == (u as int) % B64()'), ('u128_lo.limb', 'r < B64()')],
+        post=[('u128_lo.value', 'r == (u as int) % B64()'), ('u128_lo.limb', 'r < B64()'),
+              # the low limb is what gets shifted back up: state the value and the range of `r << 64` here, so that
+              # every caller has them at the call site (no trigger has to fire for the overflow check of `lo + (r << 64)`)
+              ('u128_lo.shl', '(r << 64) == r * B64()'),
+              ('u128_lo.shl_bound', '(r << 64) <= 0xffffffffffffffff_0000000000000000u128')],
         entry=BV)
     d['u128_mul_u128'] = C(
         post=[('C16.mul.exact', 'r.0 * B128() + r.1 == x * y')],
